@@ -303,3 +303,581 @@ def called_for_effect_mutates(chk: Check, rule: str, method: str) -> None:
         chk.touch(fd.name)
         chk.ob(rule, fd.where(), f"{ci.name}.{method} modifies its receiver: it is called for its effect at {len(sites)} site(s) "
                f"({', '.join(sorted({s_[0].qual for s_ in sites}))[:120]})", mutates(fd), key=f"for-effect|{ci.name}.{method}")
+
+
+# ------------------------------------------------------------------------------------------------ results of solver calls are consumed
+SOLVER_CALLS = {"root_scalar", "brentq", "bisect", "newton", "fsolve", "root", "least_squares", "minimize", "minimize_scalar", "solve_ivp", "quad", "quad_vec"}
+
+
+def _solver_in(e) -> Optional[str]:
+    for c in ast.walk(e):
+        if isinstance(c, ast.Call):
+            d = (dotted(c.func) or "").split(".")[-1]
+            if d in SOLVER_CALLS:
+                return d
+    return None
+
+
+def solver_results_consumed(chk: Check, rule: str, modules: tuple, floor: int = 1) -> None:
+    """A value computed by a root finder / minimiser / integrator and stored in a local is read before the local is overwritten or the
+    function ends (liveness).  A solver result written to a name nobody reads (a partial rename, a stale assignment kept after an edit) means
+    the code after it still works with the un-refined value -- no exception, no warning.  Decided per function on its CFG; a read inside a
+    nested function (closure) counts as a read."""
+    S = chk.src
+    cnt = 0
+    for mn in modules:
+        m = S.modules[mn]
+        for q, f in m.funcs.items():
+            if not isinstance(f.node, (ast.FunctionDef, ast.AsyncFunctionDef)):
+                continue
+            cands = [st for st in own_nodes(f.node) if isinstance(st, (ast.Assign, ast.AnnAssign)) and st.value is not None and _solver_in(st.value)]
+            if not cands:
+                continue
+            chk.touch(f.name)
+            g = CFG(f.node)
+            for_targets = {id(st.iter): {x.id for x in ast.walk(st.target) if isinstance(x, ast.Name)} for st in own_nodes(f.node) if isinstance(st, (ast.For, ast.AsyncFor))}
+
+            def loads(qn, name: str) -> bool:
+                if not isinstance(qn, ast.AST):
+                    return False
+                if isinstance(qn, ast.With):
+                    return any(isinstance(x, ast.Name) and x.id == name and isinstance(x.ctx, ast.Load) for it in qn.items for x in ast.walk(it.context_expr))
+                if isinstance(qn, ast.ExceptHandler):
+                    return False
+                if isinstance(qn, ast.AugAssign) and isinstance(qn.target, ast.Name) and qn.target.id == name:
+                    return True
+                return any(isinstance(x, ast.Name) and x.id == name and isinstance(x.ctx, (ast.Load, ast.Del)) for x in ast.walk(qn))
+
+            def stores(qn, name: str) -> bool:
+                if not isinstance(qn, ast.AST) or isinstance(qn, (ast.FunctionDef, ast.AsyncFunctionDef, ast.ClassDef, ast.Lambda)):
+                    return False
+                if id(qn) in for_targets:
+                    return name in for_targets[id(qn)]
+                if isinstance(qn, ast.With):
+                    return any(isinstance(x, ast.Name) and x.id == name for it in qn.items if it.optional_vars is not None for x in ast.walk(it.optional_vars))
+                if isinstance(qn, ast.ExceptHandler):
+                    return qn.name == name
+                return any(isinstance(x, ast.Name) and x.id == name and isinstance(x.ctx, ast.Store) for x in ast.walk(qn))
+
+            for st in cands:
+                if st not in g.nodes:
+                    continue
+                tgts = st.targets if isinstance(st, ast.Assign) else [st.target]
+                names = [x.id for t in tgts for x in ast.walk(t) if isinstance(x, ast.Name) and isinstance(x.ctx, ast.Store)]
+                if not names or any(not isinstance(x, (ast.Name, ast.Tuple, ast.List, ast.Starred)) for t in tgts for x in [t]):
+                    continue            # stored into an attribute / item: visible outside the function
+                cnt += 1
+                live = []
+                for nm in names:
+                    if nm.startswith("_") and len(names) > 1:
+                        continue
+                    region = g.reachable(st, avoid=lambda qn, nm=nm: qn is not st and stores(qn, nm))
+                    if any(loads(qn, nm) for qn in region) or (loads(st, nm) and st in region):
+                        live.append(nm)
+                chk.ob(rule, f.where(st), f"the result of {_solver_in(st.value)}(...) stored in `{', '.join(names)}` is read before it is overwritten or the function ends "
+                       "(a solver result nobody reads leaves the code after it working with the un-refined value)", bool(live),
+                       "" if live else f"`{n(st)[:90]}`: never read afterwards", key=f"consumed|{f.qual}|{_solver_in(st.value)}|{sum(1 for c in cands[:cands.index(st)] if _solver_in(c.value) == _solver_in(st.value))}")
+    if cnt < floor:
+        raise AnchorMissing(f"rule {rule}: only {cnt} stored solver results found in {modules} (expected at least {floor})")
+    chk.floor(rule, floor)
+
+
+# ------------------------------------------------------------------------------------------------ no in-place mutation of aliased stored state
+VIEW_FUNCS = {"asarray", "asanyarray", "atleast_1d", "atleast_2d", "transpose", "expand_dims", "squeeze", "ravel", "reshape", "swapaxes", "moveaxis", "broadcast_to", "flip"}
+VIEW_METHODS = {"reshape", "view", "ravel", "squeeze", "transpose", "swapaxes"}
+
+
+def _basic_index(sl) -> bool:
+    """numpy basic indexing (slices, None, Ellipsis, integers): the result is a view of the array"""
+    elts = sl.elts if isinstance(sl, ast.Tuple) else [sl]
+    return all(isinstance(e, ast.Slice) or (isinstance(e, ast.Constant) and (e.value is None or e.value is Ellipsis or isinstance(e.value, int)))
+               or (isinstance(e, ast.UnaryOp) and isinstance(e.operand, ast.Constant)) for e in elts)
+
+
+def _array_index(sl) -> bool:
+    elts = sl.elts if isinstance(sl, ast.Tuple) else [sl]
+    return any(isinstance(e, ast.Slice) or (isinstance(e, ast.Constant) and (e.value is None or e.value is Ellipsis)) for e in elts)
+
+
+def _stored_state_getters(S) -> dict:
+    """method name -> set of tuple positions (or {None}) at which some `return` hands out an attribute of self itself (no copy)"""
+    out: dict = {}
+    for m in S.modules.values():
+        for q, f in m.funcs.items():
+            if not isinstance(f.node, (ast.FunctionDef, ast.AsyncFunctionDef)) or "." not in q:
+                continue
+            for r in own_nodes(f.node):
+                if not isinstance(r, ast.Return) or r.value is None:
+                    continue
+                vals = list(enumerate(r.value.elts)) if isinstance(r.value, ast.Tuple) else [(None, r.value)]
+                for k, v in vals:
+                    if isinstance(v, ast.Attribute) and isinstance(v.value, ast.Name) and v.value.id == "self":
+                        out.setdefault(f.node.name, set()).add(k)
+    return out
+
+
+def no_inplace_mutation_of_aliased_state(chk: Check, rule: str, modules: tuple, floor: int = 1) -> None:
+    """An array handed out by another object's getter / read from an attribute (the grid's cached coordinates and Jacobians, polynomial
+    coefficients, a caller's container) is shared, not copied: numpy basic indexing, reshape, asarray ... return views of the same memory.
+    Updating such a local in place (`x *= ..`, `x[..] = ..`, `x.sort()`, `out=x`) silently rewrites the owner's state, so the next call
+    computes with corrupted data.  Every in-place update in the listed modules must act on an array created in the same function."""
+    S = chk.src
+    getters = _stored_state_getters(S)
+    cnt = 0
+
+    def alias_expr(g, at, v, depth, ev):
+        """does expression v (evaluated at CFG node `at`) denote memory owned by stored state?  ev collects evidence that it is an array"""
+        if depth > 8:
+            return None
+        if isinstance(v, ast.Name):
+            return origin(g, at, v.id, depth + 1, ev)
+        if isinstance(v, ast.Subscript):
+            if not _basic_index(v.slice):
+                return None          # fancy / boolean indexing copies
+            if _array_index(v.slice):
+                ev.append("indexed with slices")
+            return alias_expr(g, at, v.value, depth + 1, ev)
+        if isinstance(v, ast.Attribute):
+            if v.attr == "T":
+                return alias_expr(g, at, v.value, depth + 1, ev)
+            b = v
+            while isinstance(b, ast.Attribute):
+                b = b.value
+            if isinstance(b, ast.Name) and b.id == "self":
+                return n(v)
+            if isinstance(b, ast.Name):
+                # attribute of a parameter / local object: stored state of that object
+                r = origin(g, at, b.id, depth + 1, ev, want_object=True)
+                return n(v) if r else None
+            return None
+        if isinstance(v, ast.Call):
+            d = dotted(v.func) or ""
+            last = d.split(".")[-1]
+            if d.startswith("np.") and last in VIEW_FUNCS and v.args and not (last == "asarray" and any(k.arg == "dtype" for k in v.keywords)):
+                ev.append(f"np.{last}")
+                return alias_expr(g, at, v.args[0], depth + 1, ev)
+            if isinstance(v.func, ast.Attribute) and last in VIEW_METHODS:
+                ev.append(f".{last}()")
+                return alias_expr(g, at, v.func.value, depth + 1, ev)
+            if isinstance(v.func, ast.Attribute) and last in getters and None in getters[last]:
+                return f"{n(v.func)}()"
+            return None
+        return None
+
+    def origin(g, at, name, depth, ev, want_object=False):
+        if depth > 8:
+            return None
+        for d in g.reaching_defs(at, name):
+            if d is CFG.ENTRY:
+                if want_object and name != "self":
+                    return name      # a parameter object: its attributes are the caller's state
+                continue
+            if isinstance(d, ast.AugAssign):
+                r = origin(g, d, name, depth + 1, ev, want_object)
+                if r:
+                    return r
+                continue
+            if not isinstance(d, ast.Assign) or len(d.targets) != 1:
+                continue
+            t, v = d.targets[0], d.value
+            if isinstance(t, ast.Name):
+                r = alias_expr(g, d, v, depth + 1, ev)
+                if r:
+                    return r
+            elif isinstance(t, (ast.Tuple, ast.List)):
+                pos = [k for k, e_ in enumerate(t.elts) if isinstance(e_, ast.Name) and e_.id == name]
+                if not pos:
+                    continue
+                if isinstance(v, (ast.Tuple, ast.List)) and len(v.elts) == len(t.elts):
+                    r = alias_expr(g, d, v.elts[pos[0]], depth + 1, ev)
+                    if r:
+                        return r
+                elif isinstance(v, ast.Call) and isinstance(v.func, ast.Attribute) and v.func.attr in getters and pos[0] in getters[v.func.attr]:
+                    ev.append("element of a getter's tuple")
+                    return f"{n(v.func)}()[{pos[0]}]"
+        return None
+
+    for mn in modules:
+        m = S.modules[mn]
+        for q, f in m.funcs.items():
+            if not isinstance(f.node, (ast.FunctionDef, ast.AsyncFunctionDef)):
+                continue
+            muts = []
+            for st in own_nodes(f.node):
+                if isinstance(st, ast.AugAssign) and isinstance(st.target, (ast.Name, ast.Subscript)):
+                    muts.append((st, st.target, isinstance(st.target, ast.Subscript)))
+                elif isinstance(st, ast.Assign):
+                    muts += [(st, t, True) for t in st.targets if isinstance(t, ast.Subscript)]
+                elif isinstance(st, ast.Expr) and isinstance(st.value, ast.Call) and isinstance(st.value.func, ast.Attribute) \
+                        and st.value.func.attr in ("sort", "fill", "resize", "itemset", "put") and isinstance(st.value.func.value, ast.Name):
+                    muts.append((st, st.value.func.value, True))
+                for c in (y for y in ast.walk(st) if isinstance(y, ast.Call)) if isinstance(st, (ast.Assign, ast.Expr, ast.AugAssign, ast.Return)) else []:
+                    for k in c.keywords:
+                        if k.arg == "out" and isinstance(k.value, ast.Name):
+                            muts.append((st, k.value, True))
+            if not muts:
+                continue
+            g = None
+            for st, t, is_array in muts:
+                base = t
+                while isinstance(base, (ast.Subscript,)):
+                    base = base.value
+                if not isinstance(base, ast.Name) or base.id == "self":
+                    continue
+                if g is None:
+                    g = CFG(f.node)
+                    chk.touch(f.name)
+                if st not in g.nodes:
+                    continue
+                cnt += 1
+                ev: list = []
+                src_ = origin(g, st, base.id, 0, ev)
+                # a plain `x op= y` on a scalar re-binds the local; only arrays are updated in place
+                bad = bool(src_) and (is_array or bool(ev))
+                chk.ob(rule, f.where(st), f"the in-place update `{n(st)[:60]}` acts on an array created in this function, not on a view of stored state", not bad,
+                       f"`{base.id}` aliases {src_} ({', '.join(ev) or 'subscript store'}): the owner's data is overwritten" if bad else "",
+                       key=f"inplace|{f.qual}|{nf(st)[:80]}")
+    if cnt < floor:
+        raise AnchorMissing(f"rule {rule}: only {cnt} in-place updates found in {modules} (expected at least {floor})")
+    chk.floor(rule, floor)
+
+
+# ------------------------------------------------------------------------------------------------ tiny offsets of bracket ends point inward
+def bracket_offsets_inward(chk: Check, rule: str, modules: tuple, floor: int = 1) -> None:
+    """A bracket end that sits on a singular / limiting value is moved by a tiny amount so that the root finder never evaluates the limit
+    itself.  The move must point INTO the bracket: `lower + tiny`, `upper - tiny`.  The opposite sign puts the end just outside the
+    admissible interval, where the bracketed function jumps or is undefined, and the solver then converges onto the jump or loses the sign
+    change -- with no error.  Decided on the reaching definitions of both ends of every bracket handed to a scalar root finder."""
+    S = chk.src
+    cnt = 0
+
+    def tiny(c) -> bool:
+        return isinstance(c, ast.Constant) and isinstance(c.value, (int, float)) and not isinstance(c.value, bool) and 0 < abs(c.value) <= 1e-3
+
+    def offsets(g, at, e, depth=0) -> list:
+        """[(sign, constant, statement/expression)] of the tiny offsets applied at top level to the value of e"""
+        out = []
+        if depth > 3:
+            return out
+        if isinstance(e, ast.BinOp) and isinstance(e.op, (ast.Add, ast.Sub)):
+            if tiny(e.right):
+                out.append((+1 if isinstance(e.op, ast.Add) == (e.right.value > 0) else -1, e.right.value, e))
+            elif tiny(e.left) and isinstance(e.op, ast.Add):
+                out.append((+1 if e.left.value > 0 else -1, e.left.value, e))
+        elif isinstance(e, ast.Name):
+            for d in g.reaching_defs(at, e.id):
+                if isinstance(d, ast.Assign) and len(d.targets) == 1 and isinstance(d.targets[0], ast.Name):
+                    out += offsets(g, d, d.value, depth + 1)
+        return out
+
+    for mn in modules:
+        m = S.modules[mn]
+        for q, f in m.funcs.items():
+            if not isinstance(f.node, (ast.FunctionDef, ast.AsyncFunctionDef)):
+                continue
+            calls = [c for c in ast.walk(f.node) if isinstance(c, ast.Call) and (dotted(c.func) or "").split(".")[-1] in ("root_scalar", "brentq", "bisect", "brenth", "ridder", "toms748")]
+            calls = [c for c in calls if not any(isinstance(p, (ast.FunctionDef, ast.Lambda)) and p is not f.node and any(y is c for y in ast.walk(p)) for p in ast.walk(f.node))]
+            if not calls:
+                continue
+            g = CFG(f.node)
+            for c in calls:
+                at = g.node_of(c)
+                if at is None:
+                    continue
+                br = kwarg(c, "bracket", None)
+                if br is None and (dotted(c.func) or "").split(".")[-1] != "root_scalar" and len(c.args) >= 3:
+                    ends = (c.args[1], c.args[2])
+                elif isinstance(br, (ast.List, ast.Tuple)) and len(br.elts) == 2:
+                    ends = tuple(br.elts)
+                else:
+                    continue
+                chk.touch(f.name)
+                for side, e, want in (("lower", ends[0], +1), ("upper", ends[1], -1)):
+                    offs = offsets(g, at, e)
+                    if not offs:
+                        continue
+                    cnt += 1
+                    bad = [o for o in offs if o[0] != want]
+                    chk.ob(rule, f.where(c), f"the {side} end `{n(e)[:40]}` of the bracket is moved by its tiny offset INTO the bracket ({'+' if want > 0 else '-'} tiny)", not bad,
+                           "; ".join(f"`{n(o[2])[:70]}` moves it outward" for o in bad), key=f"inward|{f.qual}|{side}|{nf(e)[:60]}")
+    if cnt < floor:
+        raise AnchorMissing(f"rule {rule}: only {cnt} offset bracket ends found in {modules} (expected at least {floor})")
+    chk.floor(rule, floor)
+
+
+# ------------------------------------------------------------------------------------------------ sibling getters pad the same ends
+def _padding(e: ast.AST):
+    """(elements in front, stored array, elements behind) of an expression that pads a stored 1-D array with end points:
+    np.array([a] + list(self.X) + [b]), np.concatenate(([a], self.X, [b])), np.append(self.X, b) (canonicalised to concatenate), np.hstack / np.r_"""
+    def parts(x):
+        if isinstance(x, ast.BinOp) and isinstance(x.op, ast.Add):
+            l_, r_ = parts(x.left), parts(x.right)
+            return None if l_ is None or r_ is None else l_ + r_
+        if isinstance(x, ast.List):
+            return [("lit", el) for el in x.elts]
+        if isinstance(x, ast.Call) and (dotted(x.func) or "") in ("list", "tuple", "np.asarray", "np.array") and len(x.args) == 1:
+            return parts(x.args[0])
+        if isinstance(x, ast.Attribute):
+            return [("arr", x)]
+        if isinstance(x, ast.Starred):
+            return parts(x.value)
+        return None
+
+    ps = None
+    if isinstance(e, ast.Call):
+        d = dotted(e.func) or ""
+        if d in ("np.array", "np.asarray") and e.args:
+            a = e.args[0]
+            if isinstance(a, ast.List) and any(isinstance(el, ast.Starred) for el in a.elts):
+                ps = []
+                for el in a.elts:
+                    q = parts(el) if isinstance(el, ast.Starred) else [("lit", el)]
+                    if q is None:
+                        return None
+                    ps += q
+            else:
+                ps = parts(a)
+        elif d in ("np.concatenate", "np.hstack") and e.args and isinstance(e.args[0], (ast.Tuple, ast.List)):
+            ps = []
+            for el in e.args[0].elts:
+                q = parts(el)
+                if q is None:
+                    q = [("lit", el)] if isinstance(el, (ast.Constant, ast.UnaryOp)) else None
+                if q is None:
+                    return None
+                ps += q
+    elif isinstance(e, ast.Subscript) and (dotted(e.value) or "") == "np.r_" and isinstance(e.slice, ast.Tuple):
+        ps = []
+        for el in e.slice.elts:
+            ps += [("arr", el)] if isinstance(el, ast.Attribute) else [("lit", el)]
+    if ps is None:
+        return None
+    arrs = [i for i, (k, _) in enumerate(ps) if k == "arr"]
+    if len(arrs) != 1:
+        return None
+    i = arrs[0]
+    return i, ps[i][1], len(ps) - i - 1
+
+
+def endpoint_padding_agrees(chk: Check, rule: str, cls_name: str = "grid:Grid", getters=("getCompactCoordinates", "getCoordinates", "getCompactificationDerivatives")) -> None:
+    """With endpoints=True the grid's getters return the stored interior arrays padded with the end points.  Coordinates, compact coordinates
+    and Jacobians are used together element by element, so for every direction the three getters must pad the same ends (z, pz: both ends;
+    pp: the upper end only -- rho_par = -1 is an ordinary grid point).  Padding the other end keeps the length and shifts every entry by one."""
+    from ..flow import specialise
+    S = chk.src
+    ci = S.cls(cls_name)
+    pats = {}
+    for gname in getters:
+        fi = ci.methods.get(gname)
+        if fi is None:
+            raise AnchorMissing(f"{cls_name}.{gname} not found")
+        chk.touch(fi.name)
+        fn = specialise(fi.node, "endpoints", True)
+        import copy as _copy
+        f2 = _copy.copy(fi)
+        f2.node = fn
+        cx = Ctx(S, f2)
+        triples = [r.value for r in sorted((r for r in own_nodes(fn) if isinstance(r, ast.Return)), key=lambda r: r.lineno)
+                   if isinstance(r.value, ast.Tuple) and len(r.value.elts) == 3]
+        if not triples:
+            raise AnchorMissing(f"{cls_name}.{gname}: no `return a, b, c` with endpoints=True")
+        t = triples[0]
+        row = []
+        for el in t.elts:
+            v = el
+            if isinstance(el, ast.Name):
+                # the padded array may be assigned inside the endpoints branch: take the (single) definition
+                defs = [st.value for st in own_nodes(fn) if isinstance(st, ast.Assign) and len(st.targets) == 1 and isinstance(st.targets[0], ast.Name) and st.targets[0].id == el.id]
+                v = defs[0] if len(defs) == 1 else cx.resolve(el)
+            p = _padding(v)
+            row.append((p[0], p[2]) if p is not None else None)
+        pats[gname] = row
+    for k, direction in enumerate(("z", "pz", "pp")):
+        col = {gname: pats[gname][k] for gname in getters}
+        if any(v is None for v in col.values()):
+            from ..core import Undecided
+            raise Undecided(f"{cls_name}: end-point padding of direction {direction} not recognised in {[g_ for g_, v in col.items() if v is None]}")
+        ok = len(set(col.values())) == 1
+        chk.ob(rule, ci.methods[getters[-1]].where(), f"endpoints=True: direction {direction} is padded at the same ends (front, back) by all three getters", ok,
+               str(col), key=f"padding|{direction}")
+    chk.floor(rule, 3)
+
+
+# ------------------------------------------------------------------------------------------------ zero-expected lints with a positive control
+def _escaping_defaults(fn: ast.AST) -> list:
+    """parameters of fn whose default is an object created once at definition time (a call, a list / dict / set display) and that escape the
+    call: stored into an attribute, mutated in place or returned -- every later call (and every other object) then shares that one object"""
+    a = fn.args
+    pos = a.posonlyargs + a.args
+    pairs = list(zip(pos[len(pos) - len(a.defaults):], a.defaults)) + [(p, d) for p, d in zip(a.kwonlyargs, a.kw_defaults) if d is not None]
+    out = []
+    for p, d in pairs:
+        if not isinstance(d, (ast.Call, ast.List, ast.Dict, ast.Set, ast.ListComp, ast.DictComp, ast.SetComp)):
+            continue
+        if isinstance(d, ast.Call) and (dotted(d.func) or "") in ("tuple", "frozenset", "float", "int", "str", "bool", "complex", "bytes"):
+            continue
+        nm = p.arg
+        why = None
+        for x in ast.walk(fn):
+            if isinstance(x, ast.Assign) and isinstance(x.value, ast.Name) and x.value.id == nm and any(isinstance(t, (ast.Attribute, ast.Subscript)) for t in x.targets):
+                why = f"stored by `{n(x)[:50]}`"
+            elif isinstance(x, ast.AnnAssign) and isinstance(x.value, ast.Name) and x.value.id == nm and isinstance(x.target, (ast.Attribute, ast.Subscript)):
+                why = f"stored by `{n(x)[:50]}`"
+            elif isinstance(x, ast.IfExp) and isinstance(x.body, ast.Name) and x.body.id == nm:
+                why = why or f"selected by `{n(x)[:50]}`"
+            elif isinstance(x, (ast.Assign, ast.AugAssign)) and any(isinstance(t, ast.Subscript) and isinstance(t.value, ast.Name) and t.value.id == nm
+                                                                     for t in (x.targets if isinstance(x, ast.Assign) else [x.target])):
+                why = f"mutated by `{n(x)[:50]}`"
+            elif isinstance(x, ast.Call) and isinstance(x.func, ast.Attribute) and isinstance(x.func.value, ast.Name) and x.func.value.id == nm \
+                    and x.func.attr in ("append", "extend", "update", "add", "insert", "pop", "clear", "setdefault", "remove", "sort"):
+                why = f"mutated by `{n(x)[:50]}`"
+            elif isinstance(x, ast.Return) and isinstance(x.value, ast.Name) and x.value.id == nm:
+                why = "returned"
+            if why and not why.startswith("selected"):
+                break
+        if why:
+            out.append((nm, n(d)[:40], why))
+    return out
+
+
+def _ineffective_nan_tests(tree: ast.AST) -> list:
+    """comparisons that can never detect a computed NaN: `x == np.nan`, `np.nan in xs`, `x is np.nan` (NaN is unequal to itself; a computed NaN
+    is not the np.nan object)"""
+    out = []
+    for x in ast.walk(tree):
+        if isinstance(x, ast.Compare):
+            for o in [x.left] + list(x.comparators):
+                d = dotted(o) or ""
+                is_nan = d in ("np.nan", "numpy.nan", "math.nan", "np.NaN", "np.NAN", "nan") or \
+                    (isinstance(o, ast.Call) and (dotted(o.func) or "") == "float" and o.args and isinstance(o.args[0], ast.Constant) and str(o.args[0].value).lower() == "nan")
+                if is_nan:
+                    out.append(x)
+                    break
+    return out
+
+
+def defensive_idioms_effective(chk: Check, rule: str, modules: tuple, nan_floor: int = 0) -> None:
+    """Two zero-expected lints over the listed modules, each with a positive control evaluated on every run:
+    (a) no default argument object escapes the call (stored / mutated / returned), so objects built without that argument do not share state;
+    (b) NaN guards use np.isnan: a comparison with np.nan (==, in, is) is always false for a computed NaN and silently disables the guard."""
+    ctl = ast.parse("def f(self, a, integrals=Integrals(), cache={}):\n    self.integrals = integrals\n    cache['k'] = a\n    if np.nan in a or a == np.nan:\n        return 0\n")
+    if len(_escaping_defaults(ctl.body[0])) != 2 or len(_ineffective_nan_tests(ctl)) != 2:
+        raise AnchorMissing(f"rule {rule}: the positive control of the lint no longer matches (detector broken)")
+    S = chk.src
+    for mn in modules:
+        m = S.modules[mn]
+        nfun, bad = 0, []
+        for q, f in m.funcs.items():
+            if not isinstance(f.node, (ast.FunctionDef, ast.AsyncFunctionDef)):
+                continue
+            nfun += 1
+            for nm, d, why in _escaping_defaults(f.node):
+                bad.append(f"{q}({nm}={d}) is {why}")
+        chk.touch(f"{mn}:*")
+        chk.ob(rule, f"src/WallGo/{mn.replace('.', '/')}.py", f"no default argument object escapes the call in {mn} ({nfun} functions scanned): objects built without the "
+               "argument do not share one instance", not bad, "; ".join(bad)[:300], key=f"defaults|{mn}")
+        nans = _ineffective_nan_tests(m.tree)
+        isnan = sum(1 for x in ast.walk(m.tree) if isinstance(x, ast.Call) and (dotted(x.func) or "").endswith("isnan"))
+        chk.ob(rule, f"src/WallGo/{mn.replace('.', '/')}.py", f"NaN guards in {mn} use np.isnan ({isnan} uses); no comparison with np.nan, which is always false for a computed NaN",
+               not nans and isnan >= nan_floor, "; ".join(f"line {x.lineno}: `{n(x)[:50]}`" for x in nans)[:300] or (f"only {isnan} np.isnan guards left" if isnan < nan_floor else ""),
+               key=f"nan|{mn}")
+    chk.floor(rule, 2 * len(modules))
+
+
+# ------------------------------------------------------------------------------------------------ range masks are a snapshot
+def range_masks_are_snapshot(chk: Check, rule: str, method: str = "interpolatableFunction:InterpolatableFunction._evaluateOutOfBounds",
+                             attrs=("_rangeMin", "_rangeMax")) -> None:
+    """The below-range and above-range masks partition the input against ONE state of the table.  A direct evaluation may trigger an adaptive
+    extension of the table in the middle of the call (it moves _rangeMin / _rangeMax); a mask computed after such a call is taken against the new
+    range, so inputs between the old and the new end belong to neither mask and their result slots stay uninitialised.  Every mask must be
+    computed before the first call that may move the range."""
+    S = chk.src
+    fi = S.func(method)
+    chk.touch(fi.name)
+    ci = S.cls(method.rsplit(".", 1)[0])
+    # methods that may (transitively) re-assign the range attributes
+    may: set = set()
+    changed = True
+    while changed:
+        changed = False
+        for mname, mf in ci.methods.items():
+            if mname in may or mname == "__init__":
+                continue
+            hit = False
+            for x in ast.walk(mf.node):
+                if isinstance(x, ast.Attribute) and isinstance(x.ctx, ast.Store) and x.attr in attrs and isinstance(x.value, ast.Name) and x.value.id == "self":
+                    hit = True
+                elif isinstance(x, ast.Call) and isinstance(x.func, ast.Attribute) and isinstance(x.func.value, ast.Name) and x.func.value.id == "self" and x.func.attr in may:
+                    hit = True
+            if hit:
+                may.add(mname)
+                changed = True
+    if not may:
+        raise AnchorMissing(f"{method}: no method re-assigns {attrs}")
+    g = CFG(fi.node)
+
+    def is_writer(q) -> bool:
+        if not isinstance(q, ast.AST) or isinstance(q, (ast.FunctionDef, ast.AsyncFunctionDef, ast.ClassDef, ast.ExceptHandler)):
+            return False
+        return any(isinstance(c, ast.Call) and isinstance(c.func, ast.Attribute) and isinstance(c.func.value, ast.Name) and c.func.value.id == "self" and c.func.attr in may
+                   for c in ast.walk(q))
+
+    writers = [q for q in g.nodes if is_writer(q)]
+    masks = []
+    for q in g.nodes:
+        if isinstance(q, (ast.Assign, ast.AnnAssign)) and q.value is not None:
+            for c in ast.walk(q.value):
+                if isinstance(c, ast.Compare) and any(isinstance(o, ast.Attribute) and o.attr in attrs and isinstance(o.value, ast.Name) and o.value.id == "self"
+                                                      for o in [c.left] + list(c.comparators)):
+                    masks.append(q)
+                    break
+    if len(masks) < 2 or not writers:
+        raise AnchorMissing(f"{method}: the two range masks / a call that may move the range not found ({len(masks)} masks, {len(writers)} calls)")
+    for k, mk in enumerate(sorted(masks, key=lambda q: q.lineno)):
+        late = [w for w in writers if w is not mk and g.reaches([w], mk)]
+        chk.ob(rule, fi.where(mk), f"the range mask `{n(mk)[:50]}` is computed before any call that may move the table range "
+               f"({', '.join(sorted(may))[:80]})", not late, "; ".join(f"line {w.lineno}: `{n(w)[:50]}` can run first" for w in late)[:300], key=f"mask-snapshot|{k}")
+    chk.floor(rule, 2)
+
+
+# ------------------------------------------------------------------------------------------------ the imaginary-part dispatch is entered for negative m^2 only
+def imaginary_dispatch_strict(chk: Check, rule: str, cls_name: str = "PotentialTools.effectivePotentialNoResum:EffectivePotentialNoResum",
+                              methods=("potentialOneLoop", "potentialOneLoopThermal")) -> None:
+    """The one-loop pieces are real for m^2 >= 0; the handling selected by `imaginaryOption` (raise / abs / principal part) is entered only when some
+    squared mass is strictly negative.  `<= 0` would send an exactly massless spectrum (photon, symmetric phase) through it: ERROR raises on a real
+    result and ABS_RESULT flips the sign of the (negative) thermal pressure.  Both sibling methods must use the same strict test."""
+    S = chk.src
+    ci = S.cls(cls_name)
+    shapes = {}
+    for mname in methods:
+        fi = ci.methods.get(mname)
+        if fi is None:
+            raise AnchorMissing(f"{cls_name}.{mname} not found")
+        chk.touch(fi.name)
+        cx = Ctx(S, fi)
+        g = CFG(fi.node)
+        readers = [q for q in g.nodes if isinstance(q, ast.AST) and not isinstance(q, (ast.FunctionDef, ast.ClassDef))
+                   and any(isinstance(x, ast.Attribute) and x.attr == "imaginaryOption" for x in ast.walk(q))]
+        if not readers:
+            raise AnchorMissing(f"{cls_name}.{mname}: no use of self.imaginaryOption")
+        # tests on the sign of the masses that every use of imaginaryOption... or at least one dominates: take all tests comparing with 0 through np.any
+        cmps = []
+        for t in g.nodes:
+            if g.kind.get(t) != "test":
+                continue
+            r = cx.resolve(t)
+            if not any(isinstance(c, ast.Call) and (dotted(c.func) or "") in ("np.any", "any") for c in ast.walk(r)):
+                continue
+            if not any(g.reaches(g.branch(t, True), q) for q in readers):
+                continue
+            for c in ast.walk(r):
+                if isinstance(c, ast.Compare) and len(c.ops) == 1 and (eqx(c.comparators[0], "0") or eqx(c.left, "0")):
+                    cmps.append(c)
+        strict = [c for c in cmps if (isinstance(c.ops[0], ast.Lt) and eqx(c.comparators[0], "0")) or (isinstance(c.ops[0], ast.Gt) and eqx(c.left, "0"))]
+        shapes[mname] = (len(cmps), len(strict))
+        chk.ob(rule, fi.where(), f"{mname}: the imaginary-part handling is entered only when a squared mass is strictly negative (`m^2 < 0`; a massless "
+               "particle has a real one-loop term)", len(cmps) >= 2 and len(strict) == len(cmps),
+               "; ".join(f"`{n(c)}`" for c in cmps if c not in strict), key=f"strict-negative|{mname}")
+    chk.ob(rule, f"src/WallGo/PotentialTools/effectivePotentialNoResum.py", "the zero-temperature and the thermal piece test the masses the same way", len(set(shapes.values())) == 1,
+           str(shapes), key="strict-negative|siblings")
+    chk.floor(rule, 3)
